@@ -1,4 +1,5 @@
 import GoPlugin.Props.C07
+import GoPlugin.Props.IdAlloc
 import GoPlugin.Generated.Facts
 /- C07 at the facts extracted from the current source. -/
 namespace GoPlugin.Instance.C07
@@ -26,5 +27,11 @@ theorem dial_facts_good : Facts.grpcDial.Good := by decide
 
 theorem holds_dial_reaches_own_id (id other : Nat) (b : Bool) : GrpcBroker.dialReaches Facts.grpcDial id other b = id :=
   dial_reaches_own_id _ dial_facts_good id other b
+
+theorem idalloc_good : Facts.idAllocGrpc.Good := by decide
+
+/-- `GRPCBroker.NextId` never hands the same ID to two callers, however their calls interleave -/
+theorem holds_ids_distinct (es : List IdAlloc.Ev) (s : IdAlloc.State) (hr : IdAlloc.runFrom Facts.idAllocGrpc IdAlloc.init es = some s) :
+    s.issued.Nodup := (Props.IdAlloc.ids_distinct _ idalloc_good es s hr).1
 
 end GoPlugin.Instance.C07
